@@ -142,5 +142,14 @@ func (r *FnRun) linearExit(st *State, results []Val, where string) {
 
 // ---------------------------------------------------------- lock hooks ----
 
-func (r *FnRun) lockAcquired(st *State, p PtrVal, id Term, mode int)               {}
+// lockAcquired: ghost state declared "lockhavoc" describes what other threads
+// may have changed while the lock was not held; it is forgotten here.
+func (r *FnRun) lockAcquired(st *State, p PtrVal, id Term, mode int) {
+	for _, n := range r.e.cs.LockHavoc {
+		if g, ok := r.e.cs.Ghosts[n]; ok {
+			old := r.ghostTerm(st, g)
+			st.ghost[g.Name] = r.fresh("G_"+g.Name, old.Sort)
+		}
+	}
+}
 func (r *FnRun) lockReleasing(st *State, p PtrVal, id Term, mode int, where string) {}
